@@ -23,6 +23,10 @@ class SourceError(Exception):
     pass
 
 
+class SourceRuntimeError(NotImplementedError):
+    """A failure from the RuntimeError family (asyncio itself signals many conditions with RuntimeError)."""
+
+
 class SourceBaseError(BaseException):
     """A failure that is not an Exception subclass (the bridges must not narrow what they forward)."""
 
@@ -52,6 +56,8 @@ def gen_program(rng, profile, index=None):
     prog = {'world': 'iter', 'dir': direction, 'src': src, 'elems': elems, 'fail_at': None,
             'delays': [0.0] * (n + 1), 'tick': 4 * Q, 'explicit_loop': rng.random() < 0.5,
             'consumer_delay': _w(rng, [(0.0, 6), (Q, 2), (8 * Q, 1), (0.05, 1)])}
+    if direction == 'to_sync' and not prog['explicit_loop'] and rng.random() < 0.5:
+        prog['then_zip'] = [rng.randint(1, 3), rng.randint(1, 3)]      # later: two to_sync_iter iterations interleaved
     if direction == 'to_sync' and prog['explicit_loop'] and rng.random() < 0.5:
         prog['second_use'] = {'n': rng.randint(0, 3), 'fail': rng.random() < 0.3}   # a 2nd to_sync_iter on the SAME loop
     if src == 'range':
@@ -59,8 +65,8 @@ def gen_program(rng, profile, index=None):
     if src not in ('list', 'range'):
         if rng.random() < 0.5:
             prog['fail_at'] = rng.randrange(n + 1)
-            if rng.random() < 0.25:
-                prog['fail_kind'] = 'base'
+            if rng.random() < 0.4:
+                prog['fail_kind'] = rng.choice(['base', 'runtime'])
         # dyadic values plus multiples of 0.05 s (the polling constant this code base uses), so that a producer
         # step can end exactly when a consumer-side poll expires
         prog['delays'] = [_w(rng, [(0.0, 6), (Q, 2), (8 * Q, 2), (24 * Q, 1), (0.05, 2), (0.1, 1), (0.25, 1)]) for _ in range(n + 1)]
@@ -129,7 +135,7 @@ class IterWorld:
             sim_sleep(d)
             self.blocked_in_source = False
         if p['fail_at'] == j:
-            self.exc = (SourceBaseError if p.get('fail_kind') == 'base' else SourceError)(j)
+            self.exc = {'base': SourceBaseError, 'runtime': SourceRuntimeError}.get(p.get('fail_kind'), SourceError)(j)
             raise self.exc
         if j >= len(self.values):
             raise StopIteration
@@ -156,7 +162,7 @@ class IterWorld:
             if d:
                 await asyncio.sleep(d)
             if p['fail_at'] == j:
-                self.exc = (SourceBaseError if p.get('fail_kind') == 'base' else SourceError)(j)
+                self.exc = {'base': SourceBaseError, 'runtime': SourceRuntimeError}.get(p.get('fail_kind'), SourceError)(j)
                 raise self.exc
             if j < len(self.values):
                 self.produced += 1
@@ -280,6 +286,42 @@ class IterWorld:
                     self.viol('iter.second_use', 'a second iteration on the same caller-supplied loop misbehaves',
                               f'to_sync_iter(loop=L) twice: second use expected {vals!r} then {exc2!r}, got {got2!r} then {term2!r}')
                 self.check_helpers('to_sync_iter (2nd use)')
+            zz = self.prog.get('then_zip')
+            if zz:
+                # state that persists between uses: two further iterations, alive at the same time
+                self.phase2 = True
+
+                def agen_n(tag, n):
+                    async def g():
+                        for j in range(n):
+                            await asyncio.sleep(Q)
+                            yield (tag, j)
+                    return g()
+                ita = self.aa.to_sync_iter(agen_n('a', zz[0]))
+                itb = self.aa.to_sync_iter(agen_n('b', zz[1]))
+                got_a, got_b, err = [], [], None
+                try:
+                    for k in range(max(zz)):
+                        if k < zz[0]:
+                            got_a.append(next(ita))
+                        if k < zz[1]:
+                            got_b.append(next(itb))
+                    for it in (ita, itb):
+                        try:
+                            next(it)
+                        except StopIteration:
+                            pass
+                except BaseException as e:  # noqa
+                    if isinstance(e, S.Abort):
+                        raise
+                    err = e
+                exp_a = [('a', j) for j in range(zz[0])]
+                exp_b = [('b', j) for j in range(zz[1])]
+                if err is not None or got_a != exp_a or got_b != exp_b:
+                    self.viol('iter.concurrent_iterations', 'two to_sync_iter iterations alive at once disturb each other',
+                              f'after a first use (source failure kind {self.prog.get("fail_kind")}, fail_at={self.prog["fail_at"]}): '
+                              f'expected {exp_a} and {exp_b}, got {got_a} and {got_b}, error {err!r}')
+                self.check_helpers('to_sync_iter (interleaved uses)')
             self.finished = True
         except S.Abort:
             raise
